@@ -1,13 +1,14 @@
 \* negative configuration: write mappings granted while shared must be rejected
 CONSTANTS
-  Geos <- GS_cow_quick
+  Geos = {"cow_quick"}
+  GeoSet <- PicGeoSet
   Handles = {0, 1}
-  MaxOps = 5
-  MaxResize = 2
+  MaxOps = 4
+  MaxResize = 1
   Variant = "cow_off"
   Record = FALSE
 SPECIFICATION Spec
 VIEW View
 INVARIANT WindowsInCanvas Inside InjectiveMap CanvasInjective GranularityP MapIsWindowCell AllocGranular WriteOnlySingle DupSees
-PROPERTY CropPreserves Isolation StructuralOpsDontWrite
+PROPERTY CropPreserves StructuralOpsDontWrite Isolation
 CHECK_DEADLOCK FALSE
